@@ -19,8 +19,10 @@ FINDINGS = os.path.join(VERIF, "known_findings.json")
 # Layer B switches as the current code has them (each names a repaired deviation; the other value is the code before
 # the repair, kept so that TLC can show the deviation breaks the obligation)
 CODE = {"AndLeftTrueNeedsFalseSet": True,     # fix: a true left operand of a conjunction ...
+        "RightKeepsLeftVars": True,           # fix: results of a right operand that differ in a variable of the left operand are not duplicates
         "PreferWildcardB3": False,            # fix: IndexedCache.retrieve follows every matching branch
         "ReplayLeavesOutRepeats": True,       # fix: a cached result stored under a partial binding is replayed once
+        "ElseIfStoresDuplicates": True,       # fix: a disjunction did not cache the right-branch results it dropped as duplicates
         "ForAllKeepsConditionVars": True}     # fix: for_all lost solutions when its condition has a variable nobody above needs
 
 
